@@ -241,7 +241,7 @@ pub fn dispatch(p: &[String]) -> String {
             };
             format!("{{\"events\": [{}], \"result\": {}, \"own_error\": {}}}", c.log.iter().map(|x| jstr(x)).collect::<Vec<_>>().join(", "), res, own)
         }
-        "loader_step" => crate::sweep::loader_step(p[1] == "1", p[2] == "1", p[3].parse::<u32>().unwrap()),
+        "loader_step" => crate::sweep::loader_step_closed(p[1] == "1", p[2] == "1", p[3].parse::<u32>().unwrap(), p.len() > 4 && p[4] == "closed"),
         "loader_finalize" => crate::sweep::loader_finalize(p[1] == "1", p[2] == "1"),
         "traversal_sweep" => crate::sweep::traversal_sweep(),
         "lookup" => {
